@@ -287,7 +287,24 @@ def gen_case(rng, params, index):
     for i in range(len(negatives)):
         scheds.append({"perm": [], "cwd": ".", "dot": [], "hash_seed": rng.randint(2, 1 << 40), "dirent_seed": rng.randint(2, 1 << 40), "neg": i, "subset": None})
     model = {n: {"dir": c["dir"], "super": c["super"], "cyclic": bool(c.get("cyclic"))} for n, c in comps.items()}
-    return {"kind": "c18", "fancy": fancy, "dirs": dirs, "files": files, "sources": sources, "negatives": negatives, "expect": expect, "components": model,
+    # ---- history: after all schedules, the root class of a component that documents use is changed (the documents are
+    # not touched) and everything is translated again over the outputs of the earlier runs.  Alternatives of the same
+    # length keep the size of every output the same; the instance properties generated above stay valid for the
+    # first two pairs (QLabel is a QFrame, QDialog is a QWidget).
+    SAME_LEN = {"QFrame": ["QLabel"], "QLabel": ["QFrame"], "QWidget": ["QDialog"], "QDialog": ["QWidget"],
+                "QGroupBox": ["QLineEdit", "QCheckBox"], "QLineEdit": ["QGroupBox", "QCheckBox"], "QCheckBox": ["QGroupBox", "QLineEdit"]}
+    rebases = []
+    used_any = sorted(set(c for e in expect.values() for c in e["custom"] if c in comps))
+    cands = [n for n in sorted(comps) if not comps[n].get("cyclic") and comps[n]["super"] in SAME_LEN
+             and any(n == u or _derives(comps, u, n) for u in used_any)]
+    rng.shuffle(cands)
+    for n in cands[:rng.randint(0, 2)]:
+        new = rng.choice(SAME_LEN[comps[n]["super"]]) if rng.chance(0.8) else rng.choice(sorted(QT_BASES))
+        path = "proj/%s/%s.qml" % (comps[n]["dir"], n)
+        old_text = files[path]
+        head = old_text.split("\n%s {" % comps[n]["super"])[0]
+        rebases.append({"component": n, "path": path, "from": comps[n]["super"], "to": new, "content": head + "\n%s {\n}\n" % new})
+    return {"kind": "c18", "rebases": rebases, "fancy": fancy, "dirs": dirs, "files": files, "sources": sources, "negatives": negatives, "expect": expect, "components": model,
             "no_lower": no_lower, "schedules": scheds}
 
 
@@ -299,6 +316,16 @@ def depth(comps, n):
         n = comps[n]["super"]
         k += 1
     return k
+
+
+def _derives(comps, n, anc):
+    seen = set()
+    while n in comps and n not in seen:
+        seen.add(n)
+        n = comps[n]["super"]
+        if n == anc:
+            return True
+    return False
 
 
 def qt_base(comps, n):
@@ -463,6 +490,42 @@ def run_case(case, env):
                     break
         elif r1.exit_status == 0:
             _bump(probes, "ambiguous_root_type_base_not_recognised")
+    # ---- a component's root class changes between runs: the next run over the old outputs must produce what a run
+    # over a tree without any earlier output produces (the custom-widget entry follows the component file as it is NOW)
+    for rb in case.get("rebases", []):
+        if hangs:
+            break
+        sb.apply({"op": "WRITE", "path": rb["path"], "content": rb["content"]})
+        _bump(probes, "component_root_class_changed_between_runs")
+        what = "after changing the root class of component %s from %s to %s (documents untouched)" % (rb["component"], rb["from"], rb["to"])
+        # all documents in one invocation first; where one of them is no longer valid, the others one by one
+        groups = [list(case["sources"])]
+        for gi, group in enumerate(groups):
+            step = {"op": "GEN", "sources": group, "O": None, "no_dyn": False, "no_lower": case["no_lower"],
+                    "hash_seed": 17 + gi, "dirent_seed": 19 + gi, "env_pad": 0, "timeout_ms": 6000}
+            before = sb.snap()
+            r3 = sb.run(step)
+            stats["runs"] += 1
+            if r3.bound or r3.signal is not None:
+                viol.append(V("termination", "c18:no-progress", "%s: %s" % (what, r3.disposition())))
+                hangs += 1
+                break
+            if r3.exit_status == 0:
+                relpred = set(sb.rel(p) for p in engine.predicted_outputs(step, sb.root, proj))
+                after = sb.snap()
+                vs = engine.freshness(sb, step, relpred, after)
+                stats["runs"] += 1
+                _bump(probes, "regeneration_after_component_change_compared_with_fresh_tree")
+                if any(after.content(p) != before.content(p) for p in relpred):
+                    _bump(probes, "component_change_altered_an_output")
+                for v in vs:
+                    v["key"] = "c18:" + v["key"]
+                    v["detail"] = "%s: %s" % (what, v["detail"])
+                viol += vs
+            else:
+                _bump(probes, "component_change_made_a_document_invalid")
+                if gi == 0 and len(group) > 1:
+                    groups += [[s] for s in group]
     ncustom = sum(len(e["custom"]) for e in case["expect"].values())
     chain = max([depth(comps, n) for n in comps if not comps[n]["cyclic"]] or [0])
     fps.append("dirs=%d|comps=%d|srcs=%d|custom=%d|chain=%d|cyc=%d|files=%s" % (
@@ -522,6 +585,29 @@ def check_model(case, s, obs, desc):
 
 def shrink(case, violation):
     k = violation.get("schedule")
+    if k is None and case.get("rebases"):
+        if len(case["schedules"]) > 1:
+            c = copy.deepcopy(case)
+            c["schedules"] = case["schedules"][:1]
+            yield c
+        if len(case["rebases"]) > 1:
+            for i in range(len(case["rebases"])):
+                c = copy.deepcopy(case)
+                del c["rebases"][i]
+                yield c
+        if len(case["sources"]) > 1 and len(case["schedules"]) == 1:
+            for i in range(len(case["sources"])):
+                c = copy.deepcopy(case)
+                s = c["sources"].pop(i)
+                c["expect"].pop(s, None)
+                c["schedules"][0]["perm"] = list(range(len(c["sources"])))
+                c["schedules"][0]["dot"] = [False] * len(c["sources"])
+                c["schedules"][0]["subset"] = None
+                yield c
+    elif case.get("rebases"):
+        c = copy.deepcopy(case)
+        c["rebases"] = []
+        yield c
     if k is not None and len(case["schedules"]) > 2:
         c = copy.deepcopy(case)
         keep = [0, k] if k != 0 else [0]
